@@ -181,8 +181,29 @@ class OsProxy:
     def __init__(self):
         self.path = os.path
 
+    def _makedirs_stepwise(self, name, mode=0o777, exist_ok=False):
+        # os.makedirs as the interpreter runs it: an existence test per missing ancestor, then one mkdir each (each mkdir is a
+        # scheduling point of its own, so another thread can act between the test and the mkdir as it can in reality)
+        head, tail = os.path.split(name)
+        if not tail:
+            head, tail = os.path.split(head)
+        if head and tail and not os.path.exists(head):
+            try:
+                self._makedirs_stepwise(head, exist_ok=exist_ok)
+            except FileExistsError:
+                pass
+            if tail == os.curdir:
+                return
+        try:
+            self.mkdir(name, mode)
+        except OSError:
+            if not exist_ok or not os.path.isdir(name):
+                raise
+
     def __getattr__(self, n):
         v = getattr(os, n)
+        if n == 'makedirs' and LOG.on_io:
+            return self._makedirs_stepwise           # (under a scheduler only: the op logs of the crash engines keep one entry)
         if n in self._rec:
             def w(*a, **k):
                 if LOG.on_io:
